@@ -108,6 +108,8 @@ Ops == CASE Family = "labware"    -> LabwareOps \cup DispenseCompOps
          [] Family = "transfer"   -> TransferOps
          [] Family = "distribute" -> DistributeOps \cup {o \in LabwareOps : o.op = "aspirate" /\ o.vols = Sc(1)} \cup DispenseCompOps
          [] Family = "mixed"      -> MixedOps
+         [] Family = "transferq"  -> {o \in TransferOps : o.wash # "reuse" /\ o.pby \in {"auto", "destination"}
+                                                          /\ (o.src # o.dst \/ o.vols = Li(<<3, 1>>))}
          [] OTHER -> {}
 
 Apply(St, o) ==
